@@ -163,10 +163,10 @@ class StatusMonitor:
                 self.log.warning("No stage weight for stage %s. Default to %lf\n" % (stage, fallbackWeight))
                 weights.append(fallbackWeight * 1000)
 
-        # VV: adding floats is hard, let's assume that there're at most 2 decimals
-        int_weights = [int(e * 1000) for e in weights]
+        # VV: adding floats is hard, tolerate rounding errors but insist on non-negative weights that add to one
+        weights_are_valid = all(e >= 0.0 for e in weights) and abs(reduce(operator.add, weights) - 1.0) < 1e-6
 
-        if reduce(operator.add, int_weights) != 1000:
+        if not weights_are_valid:
             self.log.warning("Stage weights do not add to one: %s = %3.2lf\n" % (weights, reduce(operator.add, weights)))
             self.log.warning("All stage-weights will default to %3.2lf\n" % fallbackWeight)
             weights = [fallbackWeight]*len(self.commands)
